@@ -25,6 +25,9 @@
 (*   tam  "none", or the field in which the delivered content differs      *)
 (*        from the content that was signed (signature left as it was)      *)
 (*                                                                         *)
+(* A child that was suspended as inactive is re-activated by any request   *)
+(* that is acted upon - and only by such a request.                        *)
+(*                                                                         *)
 (* The statement demands (no more): a request is acted upon ONLY IF it is  *)
 (* Valid; anything else is refused with no change at all; an accepted      *)
 (* request touches only the sender's own certificates/objects within its   *)
